@@ -137,11 +137,20 @@ def run(ctx):
         cases.append((gen_layers(ctx.rng), seed))
     reals = []
     queries = []
+    kept = []
     for layers, seed in cases:
-        res, js, infos, used = real_shuffle(layers, seed)
+        try:
+            res, js, infos, used = real_shuffle(layers, seed)
+        except Exception as e:  # noqa: BLE001 - a shuffle that raises has not permuted anything: a failing input
+            ctx.violation("--shuffle (seed %r) raises %s: %s for the layers %r (name, number of tests)" % (
+                seed, type(e).__name__, e, [(n_, len(ids)) for n_, ids in layers]),
+                {"seed": seed, "layers": layers, "error": "%s: %s" % (type(e).__name__, e)}, signature="shuffle-raises")
+            continue
+        kept.append((layers, seed))
         reals.append((res, js, infos, used))
         queries.append({"op": "shuffle", "js": js,
                         "layers": [[[ord(c) for c in n_], ids] for n_, ids in layers]})
+    cases = kept
     answers = ctx.driver.batch(queries)
     for (layers, seed), (res, js, infos, used), ans in zip(cases, reals, answers):
         case = {"layers": layers, "seed": seed, "real": res, "js": js, "model": ans}
